@@ -1061,6 +1061,23 @@ hwloc__xml_import_object(hwloc_topology_t topology,
      */
   }
 
+  if (!ignored && childrengotignored && obj->memory_first_child) {
+    /* memory children of ignored normal children were appended in XML order,
+     * reorder them by complete_nodeset like the core does.
+     */
+    hwloc_obj_t *prev, child, children = obj->memory_first_child;
+    obj->memory_first_child = NULL;
+    while (children) {
+      child = children;
+      children = child->next_sibling;
+      prev = &obj->memory_first_child;
+      while (*prev && hwloc_bitmap_compare_first(child->complete_nodeset, (*prev)->complete_nodeset) >= 0)
+	prev = &((*prev)->next_sibling);
+      child->next_sibling = *prev;
+      *prev = child;
+    }
+  }
+
   return state->global->close_tag(state);
 
  error_with_object:
